@@ -51,6 +51,8 @@ class Engine(ExprMixin, CallMixin):
         self.pure_externals = set(getattr(sidecar, "PURE_EXTERNALS", ()))
         self.lemmas = dict(getattr(sidecar, "LEMMAS", {}))
         self.ufuns = {}
+        self.global_facts = []
+        self.prune = bool(getattr(sidecar, "PRUNE_BRANCHES", False))
         self.spec_env = {}
         self.spec_names = set()
         self._load_spec_defs()
@@ -72,7 +74,7 @@ class Engine(ExprMixin, CallMixin):
 
     # ------------------------------------------------------------------ sidecar spec functions
     def _load_spec_defs(self):
-        path = self.sidecar.__file__
+        path = getattr(self.sidecar, "__file_spec__", self.sidecar.__file__)
         tree = ast.parse(open(path).read())
         for n in tree.body:
             if isinstance(n, ast.FunctionDef) and any(isinstance(d, ast.Name) and d.id == "spec" for d in n.decorator_list):
@@ -84,6 +86,8 @@ class Engine(ExprMixin, CallMixin):
             f = z3.Function(name, *sorts)
             self.ufuns[name] = f
             self.spec_env[name] = VFunc("pyfunc", (lambda f: lambda *a: f(*[to_z3(x.ident if isinstance(x, VRef) else x) for x in a]))(f), name)
+        for name, key in getattr(self.sidecar, "SPEC_EXTERNALS", {}).items():
+            self.spec_env[name] = VFunc("pyfunc", (lambda k: lambda *a: self.externals[k](self, list(a), {}, None, None))(key), name)
         for name, val in getattr(self.sidecar, "SPEC_CONSTS", {}).items():
             self.spec_env[name] = self.from_py(val)
 
@@ -99,7 +103,7 @@ class Engine(ExprMixin, CallMixin):
         if z3.is_true(goal):
             self.trivial += 1
             return
-        self.obls.append(Obligation(f"{self.cur_name}#{name}", list(st.pc) + [to_z3(g) for g in guard], goal,
+        self.obls.append(Obligation(f"{self.cur_name}#{name}", list(self.global_facts) + list(st.pc) + [to_z3(g) for g in guard], goal,
                                     line=getattr(node, "lineno", None), kind=kind))
 
     # ------------------------------------------------------------------ spec evaluation
@@ -184,6 +188,9 @@ class Engine(ExprMixin, CallMixin):
     def spec_fresh(self, node, st):
         r = self.ev(node.args[0], st)
         return z3.And(to_z3(r.ident) >= to_z3(st.old.alloc), to_z3(r.ident) < to_z3(st.alloc))
+
+    def spec_vec(self, node, st):
+        return VVec([self.ev(a, st) for a in node.args])
 
     def spec_is_none(self, node, st):
         v = self.ev(node.args[0], st)
@@ -279,7 +286,39 @@ class Engine(ExprMixin, CallMixin):
                 return True
         return False
 
+    def _module_chain(self, node):
+        """dotted name rooted at an imported module of the real module, e.g. numpy.linalg.norm -> key"""
+        parts = []
+        n = node
+        while isinstance(n, ast.Attribute):
+            parts.append(n.attr)
+            n = n.value
+        if not isinstance(n, ast.Name):
+            return None
+        import types
+        root = getattr(self.realmod, n.id, None)
+        if not isinstance(root, types.ModuleType):
+            return None
+        return root.__name__ + "." + ".".join(reversed(parts)), root, list(reversed(parts))
+
     def ev_Attribute(self, node, st):
+        if isinstance(node.value, ast.Attribute) or isinstance(node.value, ast.Name):
+            base = node
+            while isinstance(base, ast.Attribute):
+                base = base.value
+            if isinstance(base, ast.Name) and base.id not in st.env and base.id not in st.ghost and base.id not in self.classes:
+                mc = self._module_chain(node)
+                if mc is not None:
+                    key, root, parts = mc
+                    if key in self.externals:
+                        return VConc(_ExtHandle(key))
+                    obj = root
+                    for p_ in parts:
+                        obj = getattr(obj, p_)
+                    import types as _t
+                    if isinstance(obj, _t.ModuleType):
+                        return VConc(obj)
+                    return self.from_py(obj)
         # module attribute chains resolved against the real modules (string.ascii_uppercase, pulp.LpMaximize ...)
         if isinstance(node.value, ast.Name) and node.value.id not in st.env and node.value.id not in self.classes \
                 and node.value.id not in st.ghost:
@@ -514,6 +553,8 @@ class Engine(ExprMixin, CallMixin):
         c = self.truth(self.ev(s.test, st))
         pre = self.with_raises(st, [], s)
         cb = conc_bool(c)
+        if cb is None:
+            cb = self.decided(st, c)
         outs = list(pre)
         if cb is not False:
             s1 = st.copy() if cb is None else st
@@ -896,6 +937,12 @@ class Engine(ExprMixin, CallMixin):
             goal = self.spec_eval(cmd[7:], st)
             self.emit(f"ghost.assert[{label}]", st, goal, node, kind="ghost")
             st.assume(to_z3(goal))
+        elif cmd.startswith("identity "):
+            # a universally valid (ring) identity: proved without any hypotheses, then assumed
+            label = g.get("label", g["at"][:24])
+            goal = to_z3(self.spec_eval(cmd[9:], st))
+            self.obls.append(Obligation(f"{self.cur_name}#ghost.identity[{label}]", [], goal, line=getattr(node, "lineno", None), kind="ghost"))
+            st.assume(goal)
         elif cmd.startswith("let "):
             name, expr = cmd[4:].split("=", 1)
             st.ghost[name.strip()] = self.spec_value(expr, st)
